@@ -1,6 +1,7 @@
 import KM.Model.Admin
 import KM.Model.GoLite
 import KM.Gen.GoAdmin
+import KM.Gen.GoGate
 import KM.Model.GoTypes
 /-! # C08 — the administration predicates as TRANSLATED from the current source (go2lean)
 
@@ -98,5 +99,51 @@ theorem c08_go_expired_reevaluated (ext : AdminCacheExt) (u : Name) (cached v : 
     (KM.Gen.GoAdmin.IsAdminUser ext u).1 = v := by
   rw [c08_go_isAdminUser, hc]
   simp [hl]
+
+/-! ### the admin gate `sendFailureToClientIfNonAdmin` and `IsAdminUserAndU2F`, as translated -/
+
+open KM.GoTypes in
+/-- **the admin gate, on the translated source**: the handler behind it runs (`false`, with the caller's identity)
+exactly when the server is unsealed, `checkAuth` admits the request under the mask "web-UI level or keymaster
+certificate", and `IsAdminUser` says yes for THAT identity; a non-admin gets one 401; for every behaviour of
+`checkAuth` and `IsAdminUser` -/
+theorem c08_go_admin_gate (ext : AdminGateExt) (webUI : Nat) :
+    KM.Gen.GoGate.sendFailureToClientIfNonAdmin ext webUI =
+      if ext.locked = true then ((true, none), [])
+      else match ext.checkAuth (webUI ||| 512) with
+        | (_, some _) => ((true, none), [])
+        | (info, none) =>
+          if ext.isAdmin info.Username = true then ((false, some info), [])
+          else ((true, none), [GateEffect.fail 401]) := by
+  obtain ⟨locked, checkAuth, isAdmin⟩ := ext
+  unfold KM.Gen.GoGate.sendFailureToClientIfNonAdmin
+  dsimp -iota only
+  cases locked with
+  | true => rfl
+  | false =>
+    rcases hc : checkAuth (webUI ||| 512) with ⟨info, _ | e⟩
+    · cases ha : isAdmin info.Username <;> simp [ha]
+    · simp
+
+open KM.GoTypes in
+/-- passing the gate means being an administrator -/
+theorem c08_go_admin_gate_passed (ext : AdminGateExt) (webUI : Nat) (info : authInfo)
+    (h : (KM.Gen.GoGate.sendFailureToClientIfNonAdmin ext webUI).1 = (false, some info)) :
+    ext.locked = false ∧ ext.checkAuth (webUI ||| 512) = (info, none) ∧ ext.isAdmin info.Username = true := by
+  rw [c08_go_admin_gate] at h
+  cases hl : ext.locked with
+  | true => simp [hl] at h
+  | false =>
+    rcases hc : ext.checkAuth (webUI ||| 512) with ⟨i, _ | e⟩
+    · cases ha : ext.isAdmin i.Username with
+      | true => simp [hl, hc, ha] at h; subst h; exact ⟨rfl, rfl, ha⟩
+      | false => simp [hl, hc, ha] at h
+    · simp [hl, hc] at h
+
+/-- the translated `IsAdminUserAndU2F` is the model's `adminAndU2F` -/
+theorem c08_go_admin_and_u2f (isAdminUser : Name → Bool) (u : Name) (level : Nat) :
+    KM.Gen.GoGate.IsAdminUserAndU2F isAdminUser u level = adminAndU2F (isAdminUser u) level := by
+  unfold KM.Gen.GoGate.IsAdminUserAndU2F adminAndU2F u2fBit KM.Gen.authTypeU2F
+  rfl
 
 end KM.Admin
